@@ -251,8 +251,8 @@ fn check_inbound_burst(rep: &mut Report, nsmall: usize, small_len: usize, total:
 /// A connection with a past: `first` messages (frame lengths) are received and consumed one after the other,
 /// then a frame of `total` wire bytes arrives. What the earlier traffic left behind (a grown, shrunk or
 /// re-used buffer) must not move the limit.
-fn check_inbound_history(rep: &mut Report, first: &[usize], total: usize, terminated: bool, chunk: usize, limit: usize, step: usize, label: &str) {
-    let replay = json!({"monitor": "c17", "dir": "history", "first": first, "wire_bytes": total, "terminated": terminated, "chunk": chunk, "limit": limit, "build": label});
+fn check_inbound_history(rep: &mut Report, first: &[usize], total: usize, terminated: bool, chunk: usize, limit: usize, step: usize, label: &str, stray: u8) {
+    let replay = json!({"monitor": "c17", "dir": "history", "stray": stray, "first": first, "wire_bytes": total, "terminated": terminated, "chunk": chunk, "limit": limit, "build": label});
     rep.eval(((total as u64) << 20) ^ first.iter().fold(terminated as u64 + 0x4157, |h, c| h.wrapping_mul(31).wrapping_add(*c as u64)) ^ chunk as u64);
     rep.count("inbound_history_cases");
     let r = vnet::catch(|| {
@@ -280,6 +280,10 @@ fn check_inbound_history(rep: &mut Report, first: &[usize], total: usize, termin
         for (k, l) in first.iter().enumerate() {
             let mut d = frame_of(*l);
             d.push(0);
+            // a peer that ends every message (or some) with a second terminator: empty frames carry nothing
+            if stray == 1 || (stray == 2 && (k * 7 + l) % 3 == 0) {
+                d.push(0);
+            }
             push(d);
             let (o, got) = recv(&mut conn);
             if o != In::Accepted || got != *l {
@@ -550,7 +554,7 @@ pub fn run(cfg: &Cfg) -> Report {
         }
         if r["dir"] == "history" {
             let first: Vec<usize> = r["first"].as_array().unwrap().iter().map(|c| c.as_u64().unwrap() as usize).collect();
-            check_inbound_history(&mut rep, &first, r["wire_bytes"].as_u64().unwrap() as usize, r["terminated"].as_bool().unwrap(), r["chunk"].as_u64().unwrap() as usize, limit, step, label);
+            check_inbound_history(&mut rep, &first, r["wire_bytes"].as_u64().unwrap() as usize, r["terminated"].as_bool().unwrap(), r["chunk"].as_u64().unwrap() as usize, limit, step, label, r["stray"].as_u64().unwrap_or(0) as u8);
         } else if r["dir"] == "burst" {
             let chunks: Vec<usize> = r["chunks"].as_array().unwrap().iter().map(|c| c.as_u64().unwrap() as usize).collect();
             check_inbound_burst(&mut rep, r["nsmall"].as_u64().unwrap() as usize, r["small_len"].as_u64().unwrap() as usize, r["wire_bytes"].as_u64().unwrap() as usize, r["terminated"].as_bool().unwrap(), &chunks, limit, step, label);
@@ -599,7 +603,7 @@ pub fn run(cfg: &Cfg) -> Report {
         ];
         for (i, (first, total, term)) in hist.into_iter().enumerate() {
             if cfg.mine(8 + i as u64) && (cfg.thorough || i < 3) {
-                check_inbound_history(&mut rep, &first, total, term, 1 << 20, limit, step, label);
+                check_inbound_history(&mut rep, &first, total, term, 1 << 20, limit, step, label, 0);
             }
         }
         // outbound at the production limit is practically unreachable (quadratic re-serialisation);
@@ -677,7 +681,22 @@ pub fn run(cfg: &Cfg) -> Report {
             _ => rng.range(FRAME_FIXED + 2, limit),
         };
         let chunk = *rng.pick(&[1usize << 20, 4096, 257, 1000]);
-        check_inbound_history(&mut rep, &first, total, rng.chance(2, 3), chunk, limit, step, label);
+        check_inbound_history(&mut rep, &first, total, rng.chance(2, 3), chunk, limit, step, label, rng.below(3) as u8);
+    }
+    // a long past (lowered limit): dozens of messages that add up to several times the limit - each of them, or some,
+    // followed by a stray terminator - then a frame around the limit: what a connection has carried in total must not
+    // count against the next frame
+    for _ in 0..cfg.n(160, 6000) {
+        let nf = rng.range(30, 90);
+        let first: Vec<usize> = (0..nf).map(|_| rng.range(600, 4200).min(limit - 2)).collect();
+        let total = match rng.below(4) {
+            0 => limit - 1 - rng.below(3),
+            1 => limit + step + rng.below(600),
+            _ => rng.range(FRAME_FIXED + 2, limit),
+        };
+        let chunk = *rng.pick(&[1usize << 20, 4096, 257, 1000]);
+        rep.count("inbound_long_history_cases");
+        check_inbound_history(&mut rep, &first, total, true, chunk, limit, step, label, rng.below(3) as u8);
     }
     // inbound bursts: small frames in front of a big one, chunked across the frame boundaries
     let nb = cfg.n(1500, 40_000);
